@@ -111,57 +111,57 @@ end
 
 /-! ### every key of a flat part is `Good` -/
 
-theorem good_flatItems (fuel : Nat) (f : Flat) (hf : FlatOK f) : ∀ a ∈ flatItems f, Good (fuel + 1) a := by
+theorem good_flatItems (fuel ld kd : Nat) (f : Flat) (hf : FlatOK f) : ∀ a ∈ flatItems f, Good (fuel + 1) ld kd a := by
   intro a ha
   simp only [flatItems, List.mem_append, List.mem_map] at ha
   rcases ha with ((((((((((⟨s, hs, rfl⟩ | ⟨s, hs, rfl⟩) | ha) | ha) | ⟨kv, hkv, rfl⟩) | ⟨v, hv, rfl⟩) | ⟨v, hv, rfl⟩) | ⟨fl, hfl, rfl⟩) | ⟨fl, hfl, rfl⟩) | ha) | ha)
   · obtain ⟨h1, _, h3⟩ := hf.seq s hs
     cases s with
     | searchRes => exact absurd rfl h3
-    | set rs => exact good_seq fuel rs h1
-  · exact good_uid fuel s (hf.uid s hs).1
+    | set rs => exact good_seq fuel ld kd rs h1
+  · exact good_uid fuel ld kd s (hf.uid s hs).1
   · unfold recvDateItems at ha
     split_ifs at ha <;> simp only [List.mem_append, List.mem_singleton, List.mem_cons, List.not_mem_nil, or_false, false_or] at ha
-    · subst ha; exact good_on fuel _
+    · subst ha; exact good_on fuel ld kd _
     · rcases ha with rfl | rfl
-      · exact good_since fuel _
-      · exact good_before fuel _
-    · subst ha; exact good_since fuel _
-    · subst ha; exact good_before fuel _
+      · exact good_since fuel ld kd _
+      · exact good_before fuel ld kd _
+    · subst ha; exact good_since fuel ld kd _
+    · subst ha; exact good_before fuel ld kd _
   · unfold sentDateItems at ha
     split_ifs at ha <;> simp only [List.mem_append, List.mem_singleton, List.mem_cons, List.not_mem_nil, or_false, false_or] at ha
-    · subst ha; exact good_senton fuel _
+    · subst ha; exact good_senton fuel ld kd _
     · rcases ha with rfl | rfl
-      · exact good_sentsince fuel _
-      · exact good_sentbefore fuel _
-    · subst ha; exact good_sentsince fuel _
-    · subst ha; exact good_sentbefore fuel _
+      · exact good_sentsince fuel ld kd _
+      · exact good_sentbefore fuel ld kd _
+    · subst ha; exact good_sentsince fuel ld kd _
+    · subst ha; exact good_sentbefore fuel ld kd _
   · obtain ⟨h1, h2⟩ := hf.header kv hkv
     unfold headerItem
     split_ifs with hc
-    · exact good_addr fuel _ _ hc h2
-    · exact good_header fuel _ _ h1 h2
-  · exact good_body fuel v (hf.body v hv)
-  · exact good_text fuel v (hf.text v hv)
+    · exact good_addr fuel ld kd _ _ hc h2
+    · exact good_header fuel ld kd _ _ h1 h2
+  · exact good_body fuel ld kd v (hf.body v hv)
+  · exact good_text fuel ld kd v (hf.text v hv)
   · unfold flagItem
     cases hk : flagSearchKey fl with
-    | some k => exact (good_sysflag fuel fl k hk).1
-    | none => exact (good_keyword fuel fl (hf.flags fl hfl)).1
+    | some k => exact (good_sysflag fuel ld kd fl k hk).1
+    | none => exact (good_keyword fuel ld kd fl (hf.flags fl hfl)).1
   · unfold notFlagItem
     cases hk : flagSearchKey fl with
-    | some k => exact (good_sysflag fuel fl k hk).2
-    | none => exact (good_keyword fuel fl (hf.notFlags fl hfl)).2
+    | some k => exact (good_sysflag fuel ld kd fl k hk).2
+    | none => exact (good_keyword fuel ld kd fl (hf.notFlags fl hfl)).2
   · unfold largerItems at ha
     split_ifs at ha with hp
     · simp only [List.mem_singleton] at ha
       subst ha
-      exact good_larger fuel _ (by have := hf.larger; unfold lim63; omega)
+      exact good_larger fuel ld kd _ (by have := hf.larger; unfold lim63; omega)
     · simp at ha
   · unfold smallerItems at ha
     split_ifs at ha with hp
     · simp only [List.mem_singleton] at ha
       subst ha
-      exact good_smaller fuel _ (by have := hf.smaller; unfold lim63; omega)
+      exact good_smaller fuel ld kd _ (by have := hf.smaller; unfold lim63; omega)
     · simp at ha
 
 end GoImap.CmdLemmas
